@@ -9,6 +9,7 @@
 Require Import Zrs.lib.RsPrelude Zrs.model.BitIO Zrs.model.FseDec Zrs.model.HufDec Zrs.model.HufEnc.
 Require Import Zrs.proofs.C13_Huffman.
 Require Import Zrs.model.BitIO Zrs.model.BitStream Zrs.model.HufDec Zrs.proofs.C12_Stream Zrs.proofs.C13_Stream.
+Require Import Zrs.gen.Generated Zrs.model.Headers Zrs.model.BlockDec Zrs.model.LitEnc Zrs.proofs.C13_LitSection.
 Open Scope Z_scope.
 
 Theorem C13_shape_valid : forall n, 2 <= n <= 256 ->
@@ -40,6 +41,39 @@ Theorem C13_literal_stream_roundtrip : forall t Mn, ht_max_bits t = Z.of_nat Mn 
   huf_decode_stream t (huf_stream_bytes code data) out true = ROk (rev data ++ out).
 Proof. exact huffman_stream_roundtrip. Qed.
 
+(** the whole Huffman-coded literals section of the compressor: four quarters [a b c d] of the literals, each a backward
+    stream, behind a 6-byte jump table, behind the table description [desc] (type 2) or nothing (type 3, treeless: the
+    decoder's table is the one the code was made for) -- [decode_literals] returns exactly the literals, the table, and
+    the number of bytes of the section, for every table/code pair in which the table resolves the code words *)
+Theorem C13_huffman_literals_section_decodes : forall t Mn, ht_max_bits t = Z.of_nat Mn -> (1 <= Mn)%nat -> ht_len t = 2 ^ Z.of_nat Mn ->
+  forall code a b c d, a <> [] /\ b <> [] /\ c <> [] /\ d <> [] ->
+  Forall (code_ok Mn code) (a ++ b ++ c ++ d) -> Forall (resolves t Mn code) (a ++ b ++ c ++ d) ->
+  zlen (hstream code a) < 65536 /\ zlen (hstream code b) < 65536 /\ zlen (hstream code c) < 65536 ->
+  forall ty desc ht,
+  (ty = 2 /\ huf_build_decoder ht (desc ++ four_bytes code a b c d) = ROk (t, zlen desc)) \/ (ty = 3 /\ desc = [] /\ ht = t) ->
+  decode_literals {| ls_type := ty; ls_regen := zlen (a ++ b ++ c ++ d); ls_comp := Some (zlen (desc ++ four_bytes code a b c d)); ls_streams := Some 4 |}
+                  ht (desc ++ four_bytes code a b c d) = ROk (t, a ++ b ++ c ++ d, zlen (desc ++ four_bytes code a b c d)).
+Proof. exact huffman_payload_decodes. Qed.
+
+(** its header: both size formats the compressor uses (4 bytes below 16384 literals, 5 bytes from there on) are parsed
+    back to the type, the regenerated size, the compressed size and four streams *)
+Theorem C13_huffman_literals_header_small : forall ty regen comp rest, (ty = 2 \/ ty = 3) -> 0 <= regen < 16384 -> 0 <= comp < 16384 ->
+  lit_header_parse (huf_lit_header ty regen comp ++ rest) = ROk (4, ty, regen, Some comp, Some 4).
+Proof. exact huf_header_parse_small. Qed.
+Theorem C13_huffman_literals_header_large : forall ty regen comp rest, (ty = 2 \/ ty = 3) -> 16384 <= regen < 262144 -> 0 <= comp < 262144 ->
+  lit_header_parse (huf_lit_header ty regen comp ++ rest) = ROk (5, ty, regen, Some comp, Some 4).
+Proof. exact huf_header_parse_large. Qed.
+
+(** the side conditions are decidable: these boolean checks, evaluated on the table and code of every Huffman-coded block
+    the real compressor emits in a run, imply them *)
+Theorem C13_code_conditions_decidable : forall t mn code s,
+  code_ok_b mn code s = true -> resolves_b t mn code s = true -> code_ok mn code s /\ resolves t mn code s.
+Proof. intros t mn code s H1 H2. pose proof (code_ok_b_sound mn code s H1) as H. split; [exact H|]. apply resolves_b_sound; assumption. Qed.
+
+Print Assumptions C13_huffman_literals_section_decodes.
+Print Assumptions C13_huffman_literals_header_small.
+Print Assumptions C13_huffman_literals_header_large.
+Print Assumptions C13_code_conditions_decidable.
 Print Assumptions C13_literal_stream_roundtrip.
 Print Assumptions C13_shape_valid.
 Print Assumptions C13_enc_dec_agree.
